@@ -104,7 +104,7 @@ def generator_plan(tier, seed):
         ("dedup3", dict(MeshIds={1}, MatIds=ALL_MATS, InstCounts={0}, TrsKinds={0}, MaxModels=3, MaxLights=0), None),
         ("width", dict(MeshIds={1, 2, 8, 9}, MatIds={0, 1}, InstCounts={0, 1}, TrsKinds={0}, MaxModels=2, MaxLights=0), None),
         ("walks", dict(MeshIds={1, 2, 3, 4, 5, 6, 7}, MatIds=ALL_MATS, InstCounts={0, 1, 2, 3}, TrsKinds={0, 1, 2}, MaxModels=6,
-                       MaxLights=2), dict(num=4000, depth=10)),
+                       MaxLights=2), dict(num=1200, depth=10)),
     ]
 
 
